@@ -91,9 +91,9 @@ func hostAlgoKeyName(algo string) (name string, cert bool, ok bool) {
 }
 
 var (
-	certMu    sync.Mutex
-	goCerts   = map[string]ssh.Signer{}
-	refCerts  = map[string]*refpeer.CertHostKey{}
+	certMu   sync.Mutex
+	goCerts  = map[string]ssh.Signer{}
+	refCerts = map[string]*refpeer.CertHostKey{}
 )
 
 // goHostSigner returns the Go signer serving algo (certificate signers are made with ssh.SignCert by the CA).
@@ -160,10 +160,11 @@ func goHostKeyCallback(algo string) ssh.HostKeyCallback {
 // ---- Go echo server (public API only) ----
 
 type goServerInfo struct {
-	algs   ssh.NegotiatedAlgorithms
-	user   string
-	echoed int64
-	execs  int
+	algs      ssh.NegotiatedAlgorithms
+	user      string
+	echoed    int64
+	execs     int
+	handshook bool // NewServerConn returned without error
 }
 
 // serveGoEcho runs a Go SSH server on nc: sessions whose exec request is
@@ -174,6 +175,7 @@ func serveGoEcho(nc net.Conn, cfg *ssh.ServerConfig) (*goServerInfo, error) {
 	if err != nil {
 		return info, err
 	}
+	info.handshook = true
 	if a, ok := sc.Conn.(ssh.AlgorithmsConnMetadata); ok {
 		info.algs = a.Algorithms()
 	}
